@@ -24,7 +24,7 @@ for f in "$SRC"/.seed/*.go; do
   fi
 done
 echo "---- demo files: $(cat /tmp/seed-untracked.txt | tr '\n' ' ')"
-DEMO=$(grep -o "go test[^'\"]*\(-run [^ ]* \)\?.*" "$SRC/.seed/demo_cmd.txt" | head -1)
+DEMO=$(grep -o "go test[^'\"]*\(-run [^ ]* \)\?.*" "$SRC/.seed/demo_cmd.txt" | head -1 | sed 's/ *;.*$//; s/ *&&.*$//')
 echo "---- demo command: $DEMO"
 echo "==== original code: demo must pass"
 (cd "$W" && eval "$DEMO" 2>&1 | tail -3)
